@@ -73,6 +73,9 @@ class Opts:
         self.pair_pct = 12
         self.bundle_port_pct = 50
         self.strided = True
+        self.anon_prefs = True
+        self.open_pct = 8        # ports left without a connection of their own (they must end up referenced)
+        self.anon_pref_pct = 25  # anonymous-bundle members that are port references
         self.array_pct = 22
         self.history = False  # C04: an interleaved history of connect / replace / disconnect operations per module
         self.avoid_known = True  # do not construct the triggers of open known findings (counted as redirects)
@@ -92,6 +95,7 @@ def _has_pref(e):
 
 class ModGen:
     decoy = False
+    anon_member_refs = None
 
     def __init__(self, d, spec, midx, opts, feats):
         self.d, self.spec, self.midx, self.o, self.feats = d, spec, midx, opts, feats
@@ -307,6 +311,16 @@ class ModGen:
         b = self.spec["bundles"][bidx]
         members = []
         for name, width, _k in b["sigs"]:
+            tg = self.ref_targets(width, cur, inner=False) if (o.prefs and o.anon_prefs and cur is not None and d.bool(o.anon_pref_pct)) else []
+            if tg:
+                # a member that is itself a reference to another instance's port (which may have no connection of its own)
+                opn = [t for t in tg if self.portinfo[(t[0], t[1])]["plan"] == "open"]
+                t = d.choice(opn if opn and d.bool(60) else tg)
+                self.referenced.add((t[0], t[1]))
+                self.anon_member_refs.add((t[0], t[1]))
+                self.feats.add("portref_as_anon_member")
+                members.append([name, ["pref", t[0], t[1]]])
+                continue
             members.append([name, self.expr(width, 1, allow_ref=False, cur=cur)])
         for sub in b["subs"]:
             if depth < 2:
@@ -397,12 +411,13 @@ class ModGen:
         # per-port plans
         self.portinfo = {}
         self.referenced = set()
+        self.anon_member_refs = set()
         for inst, iface in plan:
             for p in iface:
                 pl = "explicit"
                 if o.noconns and d.bool(10):
                     pl = "nc"
-                elif o.prefs and inst["kind"] == "inst" and d.bool(8):
+                elif o.prefs and inst["kind"] == "inst" and d.bool(o.open_pct):
                     pl = "open"  # left unconnected; must end up referenced by someone
                 self.portinfo[(inst["name"], p[1])] = {
                     "kind": inst["kind"], "width": p[2] if p[0] == "sig" else None,
@@ -486,7 +501,7 @@ class ModGen:
                 ops = []
                 connected = None
                 for _ in range(d.weighted([(0, 30), (1, 40), (2, 20), (3, 10)])):
-                    if connected is not None and d.bool(20):
+                    if connected is not None and d.bool(45 if connected == "portref" else 20):
                         ops.append([inst["name"], p[1], None, "disconnect"])
                         self.feats.add("op_disconnect")
                         connected = None
@@ -503,6 +518,14 @@ class ModGen:
                             t = d.choice(tg)
                             e = ["pref", t[0], t[1]]
                             self.feats.add("template_holds_portref")
+                    if e is None and inst["kind"] == "inst" and p[0] == "sig" and d.bool(25):
+                        # a decoy tied directly to a port that has no connection of its own and lives on references only
+                        tg = [t for t in self.ref_targets(p[2], key, inner=False) if self.portinfo[(t[0], t[1])]["plan"] == "open"]
+                        tg = [t for t in tg if (t[0], t[1]) in self.anon_member_refs] or tg  # preferably one kept alive inside an anonymous bundle
+                        if tg:
+                            t = d.choice(tg)
+                            e = ["pref", t[0], t[1]]
+                            self.feats.add("decoy_reference_to_open_port")
                     if e is None:
                         e = self.conn_for(inst, p, key, fake, allow_ref=(inst["kind"] == "inst" or inst.get("via") == "mult_late"))
                     op = "replace" if connected is not None and d.bool(30) else d.choice(["call", "setattr", "connect"])
@@ -525,6 +548,19 @@ class ModGen:
                     self.feats.add("op_disconnect_final")
                 if ops:
                     per_port.append(ops)
+        # scenario: a port that lives on references from inside anonymous bundles only is, for a while, also tied directly to
+        # another port, which is then disconnect()-ed and re-made
+        direct_final = {(e[1], e[2]) for inst in self.insts for _pn, e in inst["conns"] if e[0] == "pref"}
+        for T in sorted(self.anon_member_refs or ()):
+            if self.portinfo[T]["plan"] != "open" or T in direct_final or not d.bool(80):
+                continue
+            cands = [ops for ops in per_port if ops and ops[0][0] != T[0] and self.portinfo.get((ops[0][0], ops[0][1]), {}).get("kind") == "inst"
+                     and self.portinfo[(ops[0][0], ops[0][1])]["width"] == self.portinfo[T]["width"]]
+            if cands:
+                ops = d.choice(cands)
+                ops[0:0] = [[ops[0][0], ops[0][1], ["pref", T[0], T[1]], d.choice(["call", "setattr", "connect"])],
+                            [ops[0][0], ops[0][1], None, "disconnect"]]
+                self.feats.add("anon_held_reference_tied_then_disconnected")
         hist = []
         pos = [0] * len(per_port)
         live = list(range(len(per_port)))
